@@ -71,3 +71,19 @@ def run(ctx):
         'only the Linux/FreeBSD CompletionEventImpl is compiled and checked',
         'TLC, the JSON/IOUtils community modules and g++ are trusted',
     ]
+
+    # Future::wait_for / wait_until half of C20 (futures component, checks/c20_future.py).  It needs that
+    # component's hooks (sites Fu*) in the tree under VERIF_REPO; without them it is skipped and recorded.
+    from vlib import REPO
+    fut = os.path.join(os.path.dirname(os.path.abspath(__file__)), 'c20_future.py')
+    try:
+        hooked = 'DISPENSO_VERIF_POINT("Fu' in open(os.path.join(REPO, 'dispenso/detail/future_impl.h')).read()
+    except OSError:
+        hooked = False
+    if os.path.exists(fut) and hooked:
+        import c20_future
+        c20_future.run_future_part(ctx)
+        ctx.cov['future_half'] = 'included'
+    else:
+        ctx.cov['future_half'] = 'skipped: %s' % ('no Fu* hooks in VERIF_REPO' if os.path.exists(fut)
+                                                   else 'checks/c20_future.py absent')
